@@ -77,7 +77,9 @@ inductive StepRes where
   deriving Repr
 
 -- ------------------------------------------------------------------------------------------------ the loop
-def Loop.running (l : Loop) : Bool := if l.from_ < l.to then decide (l.i < l.to) else decide (l.i > l.to)
+/-- `is_running && step != 0` (as repaired: a loop with step 0 does not run) -/
+def Loop.running (l : Loop) : Bool :=
+  (if l.from_ < l.to then decide (l.i < l.to) else decide (l.i > l.to)) && decide (l.step ≠ 0)
 
 /-- the value a loop parameter string stands for in the current iteration (`none`: the parameter is skipped) -/
 def parseDec (s : List Nat) : Option Int :=
